@@ -102,8 +102,13 @@ fn drive<D: DecisionDiagram<State = St> + Default + Drawable>(m: &Model, ddname:
                 if viz && c.is_ok() {
                     draw_all(&dd.inner, m);
                 }
-                if ty == CompilationType::Relaxed && c.is_ok() {
-                    let _ = std::panic::catch_unwind(std::panic::AssertUnwindSafe(|| dd.drain_cutset(|_| {})));
+                // like the solvers: the cut-set is drained only when the relaxed diagram is not exact (an un-drained
+                // cut-set is part of the history of the diagram object)
+                if ty == CompilationType::Relaxed && c.is_ok() && (!dd.is_exact() || r.gen_bool(0.1)) {
+                    if std::panic::catch_unwind(std::panic::AssertUnwindSafe(|| dd.drain_cutset(|_| {}))).is_err() {
+                        emit(json!({"ev":"panic","where":"drain"}));
+                        dd = RecDD::default();
+                    }
                 }
             }
         }
